@@ -1,5 +1,6 @@
 # C15 — the JavaScript snippet parser (otto/parser): accepts or rejects every input without
 # crashing; supported-subset expressions yield the tree JavaScript precedence/associativity prescribe.
+import base64
 import json
 import os
 import subprocess
@@ -561,6 +562,216 @@ def nest(rng, depth, close=None):
     return o * depth + core + (c * depth if close else b"")
 
 
+# ------------------------------------------------------------------ special comment and literal forms
+# The forms the parser treats specially, each with well-formed, truncated and malformed payloads.  Most are outside
+# the Coq model (POutside): they are judged by the observation oracle (returns, no panic, same answer every time).
+
+def b64(b):
+    return base64.b64encode(b)
+
+
+SM_JSON = [b'{"version":3,"sources":["a.js"],"names":[],"mappings":"AAAA"}',
+           b'{"version":3,"file":"out.js","sourceRoot":"","sources":["a.js","b.js"],"names":["x","y"],'
+           b'"mappings":"AAAA,IAAIA,CAAC;AACDC,EAAE;;ACDF"}',
+           b'{"version":3,"sources":[],"names":[],"mappings":""}',
+           b'{"version":3,"sources":["a.js"],"names":[],"mappings":";;;;AAAA,,,"}',
+           b'{"version":3,"sources":["a.js"],"names":[],"mappings":"A"}',
+           b'{"version":3,"sources":["a.js"],"names":[],"mappings":"!!!!"}',
+           b'{"version":3,"sources":["a.js"],"names":[],"mappings":"AAAAA"}',
+           b'{"version":3,"sources":["a.js"],"names":[],"mappings":"gggggggggggggggggggggB"}',
+           b'{"version":3,"sources":["a.js"],"names":[],"mappings":"AAgBC,SAAQ,CAAEA"}',
+           b'{"version":3,"sources":["a.js"],"names":[],"mappings":"AADA"}',
+           b'{"version":3,"sources":[1],"names":[2],"mappings":"AAAAA"}',
+           b'{"version":3,"sources":null,"mappings":"AAAA"}',
+           b'{"version":2,"sources":["a.js"],"names":[],"mappings":"AAAA"}',
+           b'{"version":"3","sources":["a.js"],"names":[],"mappings":"AAAA"}',
+           b'{"version":3,"sections":[{"offset":{"line":0,"column":0},"map":{"version":3,"sources":["a.js"],'
+           b'"names":[],"mappings":"AAAA"}}]}',
+           b'{"version":3,"sections":[{"offset":{"line":-1,"column":-1},"map":null}]}',
+           b'{"version":3,"sections":[{}]}', b'{"version":3,"sections":[],"mappings":"AAAA"}',
+           b'{"version":3}', b'{}', b'[]', b'null', b'"x"', b'3', b'', b' ', b'{', b'{"version":3,"sources":["a.js"',
+           b'{"version":3,"mappings":"AAAA"}', b'\xff\xfe{"version":3}', b")]}'\n{\"version\":3}"]
+
+SM_NAMES = [b"app.js.map", b"/abs/dir/x.map", b"http://x.test/y.map?z=1,2", b"", b" ", b"x,y", b"a b.map", b"\xc3\xa9.map",
+            b"data:", b"data:,", b"data:text/plain;base64,AAAA", b"data:application/jso", b"file:///x.map"]
+
+SM_COMMENT = [b"//# sourceMappingURL="] * 30 + [
+              b"//@ sourceMappingURL=", b"//@ sourceMappingURL=", b"//#sourceMappingURL=", b"// # sourceMappingURL=",
+              b"//# sourceMappingURL =", b"//# sourceURL=", b"//# SourceMappingURL=", b" //# sourceMappingURL=",
+              b"\t//# sourceMappingURL="]
+
+
+def sm_payload(rng):
+    """what follows `sourceMappingURL=`"""
+    m = rng.random()
+    if m < 0.15:
+        return rng.choice(SM_NAMES)
+    media = rng.choice([b"data:application/json", b"data:application/json", b"data:application/json;charset=utf-8",
+                        b"data:application/json;charset=utf8", b"data:application/jsonx", b"data:application/json-patch+json",
+                        b"data:application/json;", b"data:application/json;x=\"a,b\""])
+    enc = rng.choice([b";base64", b";base64", b";base64", b"", b";base64;", b";BASE64"])
+    if m < 0.4:
+        return media + enc                                   # no comma, no payload at all
+    js = rng.choice(SM_JSON)
+    k = rng.random()
+    if k < 0.45:
+        pay = b64(js)
+    elif k < 0.6:
+        pay = b64(js)
+        pay = pay[:rng.randrange(len(pay) + 1)]              # truncated base64
+    elif k < 0.7:
+        pay = js                                             # not base64 at all
+    elif k < 0.8:
+        pay = b64(js).rstrip(b"=") + rng.choice([b"", b"=", b"===", b" ", b"\t", b"\r", b"*", b"%3D", b",", b",AAAA"])
+    elif k < 0.88:
+        pay = base64.urlsafe_b64encode(rng.choice([b"\xfb\xff\xfe", js + b"\xff?>"]))
+    elif k < 0.94:
+        pay = b""
+    else:
+        pay = bytes(rng.choice(b"ABCDabcd0189+/=-_ ,\\\"'") for _ in range(rng.choice([1, 2, 3, 4, 5, 8, 12])))
+    return media + enc + b"," + pay
+
+
+def sm_comment(rng):
+    pay = sm_payload(rng)
+    m = rng.random()
+    if m < 0.86:
+        c = rng.choice(SM_COMMENT) + pay
+        if rng.random() < 0.05:
+            c = c[:rng.randrange(2, len(c) + 1)]             # cut anywhere, also inside the marker itself
+        return c
+    if m < 0.93:
+        return rng.choice([b"/*# sourceMappingURL=", b"/*@ sourceMappingURL=", b"/* # sourceMappingURL="]) + pay + \
+            rng.choice([b" */", b"*/", b"", b" *"])
+    return rng.choice(SM_COMMENT) + pay + rng.choice([b" ", b"\t", b" // x", b"/**/"])
+
+
+RE_VALID = [b"a", b"abc", b"a|b", b"a*", b"a+?", b"a??", b"[a-z]", b"[^a]", b"\\d+", b"\\w\\s", b"(a)", b"(?:a)", b"a{1,2}",
+            b"a{2}", b"a{2,}", b"^a$", b".", b"\\/", b"[/]", b"[\\/]", b"\\u0041", b"\\x41", b"\\cA", b"\\cz", b"\\0", b"a\\b",
+            b"[\\b]", b"\\.", b"\\$", b"(a|b)*c", b"\\u00e9", b"\xc3\xa9", b"[\\]]", b"\\-", b"\\B", b"\\S\\D\\W",
+            b"\\t\\n\\r\\f\\v", b"=", b"=a", b"\\\\", b"[^]]", b"[]]" , b"\\07", b"\\012", b"\\377", b"\\e", b"\\a", b"\\_",
+            b"\\u00E9+", b"(a)(b)(c)", b"((a))", b"a{0}", b"a{,3}", b"{", b"}", b"a{", b"]", b"\\c", b"\\c1", b"\\x4", b"\\xg",
+            b"\\u12", b"\\u", b"\\u{61}", b"[a-a]", b"\"", b"'", b"`", b"\\`", b"${x}", b"#", b"\\ ", b" ", b"\t", b"a/*b", b"*/"]
+RE_RE2 = [b"(?=a)", b"(?!a)", b"a(?=b)c", b"x(?!y)", b"(a)\\1", b"\\1", b"\\2(b)", b"\\8", b"\\9", b"\\19", b"(?=)", b"(?!)",
+          b"(?=a", b"(?!", b"(?=(a))\\1", b"[\\1]", b"(a)\\2", b"\\1\\2\\3", b"(?:(?=a))", b"((?!a)b)*"]
+RE_INVALID = [b"(", b"a(", b"(a", b"((a)", b")", b"a)", b"())", b"[", b"[a", b"[^", b"a[b", b"(?", b"(?:", b"*", b"+", b"?",
+              b"a**", b"a{2,1}", b"\\", b"(?<n>a)", b"(?<=a)", b"(?<!a)", b"\\k<n>", b"\\p{L}", b"\\pL", b"[z-a]", b"(?i)a",
+              b"(?P<n>a)", b"\\Q.\\E", b"a{1000}", b"a{1001}", b"(a{1000}){1000}", b"((a{100}){100}){100}", b"[[:alpha:]]",
+              b"[[:foo:]]", b"\\A", b"\\z", b"\\C", b"\\P{Foo}", b"(?#c)", b"(?s).", b"(?", b"(?x", b"[a", b"[\\", b"(\\",
+              b"\xff", b"[\xff]", b"\xc3", b"\\\xff", b"\\\xc3\xa9", b"\\\xe2\x80\xa8", b"\xe2\x80\xa8", b"|*", b"^*", b"$+",
+              b"\\b+", b"(?:)*?+", b"a{99999}", b"a{2147483648}", b"\\x{41}", b"\\u{110000}", b"\\uD800", b"\\uDFFF\\uD800",
+              b"[\\d-x]", b"[a-\\d]", b"\\8\\9", b"(()", b"[()", b"([)]", b"\\)", b"\\(", b"(\\)"]
+RE_ATOMS = [b"a", b"b", b"x", b"0", b"\\d", b"\\w", b"\\s", b".", b"[a-z]", b"[^/]", b"(", b")", b"(?:", b"(?=", b"(?!", b"(?<",
+            b"[", b"]", b"[^", b"|", b"*", b"+", b"?", b"{2}", b"{1,", b"}", b"\\1", b"\\9", b"\\", b"\\/", b"\\u0041", b"\\u",
+            b"\\x4", b"\\c", b"^", b"$", b"\xc3\xa9", b"\xff", b"-", b",", b"=", b" ", b"\\b", b"\\0", b"\\k", b"<", b">", b"!"]
+RE_FLAGS = [b"", b"", b"", b"g", b"g", b"i", b"m", b"gi", b"gim", b"y", b"u", b"s", b"d", b"gg", b"x", b"G", b"g1", b"$", b"_",
+            b"\\u0067", b"gimsuyd", b"ig" * 8, b"\xc3\xa9"]
+RE_OPEN = [b"/abc", b"/a\\", b"/a\\/", b"/[/", b"/[/]", b"/(", b"/a\nb/", b"/a\r/", b"/a/\ng", b"/\n/", b"/a\\\nb/",
+           b"/a\xe2\x80\xa8b/", b"/", b"/=", b"/=/", b"/ /", b"/*/", b"/[\n]/", b"/\\\n/", b"/a/g/", b"/a//", b"/a/ /b/", b"/a/i/b/g"]
+
+BT_FORMS = [b"`a`", b"``", b"`a ${b} c`", b"`${", b"`${a", b"`${}`", b"`$`", b"`$${a}`", b"`a\nb`", b"`a\r\nb`", b"`a\\`b`",
+            b"`a${`b`}c`", b"`${a + `${b}`}`", b"`\\u0041`", b"`\\x4`", b"`\\u{41}`", b"`\\u12`", b"`\\0`", b"`\\08`", b"`a",
+            b"`a\\", b"`a\\\n`", b"`a\\\r\n`", b"tag`x`", b"f`a${b}`", b"`a`.length", b"`a` + `b`", b"`a``b`", b"`\xff`",
+            b"`\xe2\x80\xa8`", b"`'\"`", b"'`'", b"\"`\"", b"`'", b"'`", b"`\"`'`'", b"`<div class=\"${c}\">${t}</div>`",
+            b"`line1\n  line2 ${x}\n`", b"`\\${a}`", b"`${'`'}`", b"`}`", b"`{`", b"`${{a:1}}`", b"({`k`: 1})", b"a.`b`",
+            b"`a`(1)", b"`a`[0]", b"new `a`", b"`\\`", b"`\\\\`", b"`\t`", b"`\x00`", b"` ` `"]
+
+NUM_FORMS = [b"0", b"00", b"01", b"07", b"08", b"09", b"010", b"0777", b"0888", b"08.5", b"09e1", b"07.5", b"0.", b"0.0", b".0",
+             b".", b"..", b"0..", b"1..x", b"1.x", b"1.toString()", b"1 .x", b"1.0.x", b"1.2.3", b".5.5", b"0x", b"0X", b"0x1g",
+             b"0xG", b"0x1.8", b"0x1p3", b"0xfffffffffffffffff", b"0x7fffffffffffffff", b"0x8000000000000000", b"0b101",
+             b"0B1", b"0o17", b"0O8", b"0b", b"0o", b"1_000", b"_1", b"1_", b"1n", b"0n", b"0x1n", b"1e", b"1e+", b"1e-", b"1E",
+             b"1e1", b"1e+1", b"1e-1", b"1e1.5", b"1e1e1", b"1ee1", b"1e1000", b"1e-1000", b".e1", b".0e", b"5.e3", b"5.e",
+             b"0e", b"0e0", b"00e1", b"0.e1", b"1a", b"1$", b"1_a", b"3in x", b"3 in x", b"1if", b"0xin", b"1.e", b"1.e+",
+             b"9007199254740993", b"9223372036854775807", b"9223372036854775808", b"18446744073709551616", b"1" + b"0" * 400,
+             b"0." + b"0" * 400 + b"1", b"1e" + b"9" * 30, b"0" * 40, b"0" * 40 + b"8", b"\xd9\xa1", b"1\xd9\xa1",
+             b"\xef\xbc\x91", b"1\\u0061", b"0\\u0078", b"+.5", b"-0", b"- -1", b"-0x1", b"+0x", b"1++", b"++1", b"1--1",
+             b"1 2", b"1,2", b"0,0", b"1/2/3", b"1/ 2/g", b"Infinity", b"NaN", b"-Infinity", b"1.5.toFixed", b"1..5", b"0.5.",
+             b"01.5", b"00.5", b"0x.5", b"1e0x1", b"0xe+1", b"0xe-1", b"0xE+1"]
+
+ID_FORMS = [b"\\u0061", b"a\\u0062c", b"\\u0061\\u0062", b"\\u{61}", b"a\\u{62}", b"\\u00", b"\\u006", b"\\u", b"\\u006g",
+            b"\\U0061", b"\\x61", b"\\a", b"\\uD800", b"\\uDC00", b"\\uD83D\\uDE00", b"\\u0030a", b"a\\u0030", b"\\u0020",
+            b"a\\u0020b", b"\\u002e", b"a\\u002eb", b"\\u0024", b"\\u005f", b"\\u00e9", b"\\u200c", b"a\\u200d", b"\\uFEFF",
+            b"\\uffff", b"\\u0000", b"a\\u0000", b"\\u0069f", b"\\u0069f (a) b", b"v\\u0061r x", b"var v\\u0061r", b"\\u0076ar a",
+            b"n\\u0065w X", b"typ\\u0065of a", b"tru\\u0065", b"nul\\u006c", b"th\\u0069s", b"\\u0066unction f(){}",
+            b"function \\u0066(){}", b"function f(\\u0061){}", b"a.\\u0062", b"a.b\\u0063", b"a.\\u0069f", b"({\\u0061: 1})",
+            b"({a\\u0062: 1})", b"({get \\u0061(){}})", b"var \\u0061 = 1", b"var a\\u0062 = 1, \\u0063", b"\\u0061 = 1",
+            b"\\u0061++", b"\\u0061: x", b"\\u0061\\", b"\\\\u0061", b"\\u0061\\u", b"a\\", b"a\\b", b"a\\ub", b"\xc3\xa9",
+            b"a\xc3\xa9", b"\xc3\xa9a", b"\xe2\x84\xab", b"\xf0\x9d\x92\x9c", b"\xf0\x9f\x98\x80", b"a\xcc\x81", b"\xcc\x81a",
+            b"\xe2\x80\x8ca", b"a\xe2\x80\x8c", b"\xc2\xaa", b"\xef\xbf\xbf", b"\xe2\x80\xa8a", b"a\xe2\x80\xa9", b"\xef\xbb\xbfa",
+            b"a\xef\xbb\xbf", b"\xc2\xa0a", b"a\xc2\xa0", b"\xe1\x9a\x80a", b"\xe3\x80\x80a", b"\xc2\x85a", b"$\\u0061", b"_\\u0061",
+            b"\\u0061$", b"\\u{0}", b"\\u{}", b"\\u{61", b"\\u{110000}", b"\\u{0000000061}", b"'\\u0061' + \\u0061"]
+
+# surroundings of a literal: {L} is replaced by the literal (a regular expression may follow each of these)
+CTX_EXPR = [b"{L}", b"{L}", b"{L}", b"({L})", b"{L}.test(s)", b"s.replace({L}, \"-\")", b"s.replace({L}, '$1').trim()",
+            b"var r = {L};", b"var r = {L}, q = {L}", b"x = {L}", b"x += {L}", b"f({L}, {L})", b"f(a, {L})", b"[{L}]", b"[{L}, {L},]",
+            b"({k: {L}})", b"({k: {L}, j: {L}})", b"a ? {L} : b", b"a ? b : {L}", b"{L} ? a : b", b"!{L}", b"typeof {L}", b"void {L}",
+            b"s.split({L}).length", b"s.match({L})[0]", b"a = b, {L}", b"a\n{L}", b"a;\n{L}", b"a || {L}", b"a && {L}.test(a)",
+            b"a == {L}", b"a + {L}", b"a in {L}", b"new {L}", b"new RegExp({L})", b"{L}[0]", b"{L}.source.length", b"{L}({L})",
+            b"if ({L}.test(x)) { y }", b"if (a) {L}; else {L}", b"for (;;) {L}", b"for (var i = {L}; ;) ;", b"while ({L}) break",
+            b"do {L}; while (0)", b"switch ({L}) { case {L}: }", b"try { {L} } catch (e) { {L} }", b"throw {L}", b"with ({L}) a",
+            b"l: {L}", b"{ {L} }", b";{L};", b"function f() { return {L} }", b"(function(){ return {L} })()", b"return {L}",
+            b"return {L};", b"return s.replace({L}, '')", b"/* c */ {L} // d", b"{L} /* c */", b"// {L}\n{L}", b"/* {L} */ {L}",
+            b"'{L}'", b"\"a\" + {L}", b"{L} {L}", b"{L}\n{L}", b"{L}/{L}", b"a / {L} / b", b"a /= {L}", b"a\n/{L}/g", b"a++ {L}",
+            b"a++\n{L}", b"){L}", b"]{L}", b"}}{L}", b"{L})", b"{L}]", b"({L}", b"[{L}", b"a.{L}", b"a[{L}]", b"{L}: 1", b"({ {L}: 1 })",
+            b"var {L} = 1", b"function {L}() {}", b"function f({L}) {}", b"{L} = 1", b"{L}++", b"++{L}", b"delete {L}", b"{L} => 1"]
+
+SPECIAL_KINDS = ["sourcemap", "regexp_valid", "regexp_re2", "regexp_invalid", "regexp_random", "regexp_open", "backtick",
+                 "number", "ident_escape"]
+
+
+def special_literal(rng, kind=None):
+    """(kind, literal bytes)"""
+    kind = kind or rng.choice(SPECIAL_KINDS[1:])
+    if kind == "regexp_valid":
+        return kind, b"/" + rng.choice(RE_VALID) + b"/" + rng.choice(RE_FLAGS)
+    if kind == "regexp_re2":
+        return kind, b"/" + rng.choice([b"", b"", b"a", b"^", b"(b)"]) + rng.choice(RE_RE2) + rng.choice([b"", b"", b"x", b"$"]) + \
+            b"/" + rng.choice(RE_FLAGS)
+    if kind == "regexp_invalid":
+        return kind, b"/" + rng.choice([b"", b"", b"a"]) + rng.choice(RE_INVALID) + rng.choice([b"", b"", b"b"]) + b"/" + \
+            rng.choice(RE_FLAGS)
+    if kind == "regexp_random":
+        body = b"".join(rng.choice(RE_ATOMS) for _ in range(rng.choice([1, 2, 2, 3, 3, 4, 5, 8])))
+        if body[:1] in (b"*", b"/") or not body:
+            body = b"a" + body
+        return kind, b"/" + body + b"/" + rng.choice(RE_FLAGS)
+    if kind == "regexp_open":
+        return kind, rng.choice(RE_OPEN)
+    if kind == "backtick":
+        return kind, rng.choice(BT_FORMS)
+    if kind == "number":
+        return kind, rng.choice(NUM_FORMS)
+    if kind == "ident_escape":
+        return kind, rng.choice(ID_FORMS)
+    raise ValueError(kind)
+
+
+def fill(ctx, lit, rng, other=None):
+    """put the literal into every {L} of the context (the second {L}: sometimes another literal)"""
+    parts = ctx.split(b"{L}")
+    out = parts[0]
+    for i, p in enumerate(parts[1:]):
+        out += (other if (i and other is not None and rng.random() < 0.5) else lit) + p
+    return out
+
+
+def byte_edit(src, rng):
+    """one or two small edits: cut, delete, insert, duplicate"""
+    s = bytearray(src)
+    for _ in range(rng.choice([1, 1, 2])):
+        m = rng.random()
+        pos = rng.randrange(len(s) + 1)
+        if m < 0.3:
+            s = s[:pos]
+        elif m < 0.5 and s:
+            del s[min(pos, len(s) - 1)]
+        elif m < 0.8:
+            s[pos:pos] = bytes([rng.choice(HOT)])
+        else:
+            s[pos:pos] = s[max(0, pos - rng.randint(1, 4)):pos]
+    return bytes(s)
+
+
 # ------------------------------------------------------------------ the property
 
 CLASSES = {"ok": 0, "err": 1, "panic": 2, "timeout": 3}
@@ -569,13 +780,23 @@ BIG_QUICK = 10000       # never larger in the quick tier (a 10^6-deep nesting ki
 BIG_THOROUGH = 100000   # only in a child process under ulimit -v and a timeout
 
 
-def mk(mode, src, stream, want=None, tree=None, params=b""):
+def mk(mode, src, stream, want=None, tree=None, params=b"", kind=None):
     c = {"mode": mode, "params": hx(params), "src": hx(src), "stream": stream}
     if want is not None:
         c["want"] = hx(want)
     if tree is not None:
         c["tree"] = tree
+    if kind is not None:
+        c["kind"] = kind
     return c
+
+
+def step_of(c):
+    return {"mode": c["mode"], "params": c["params"], "src": c["src"]}
+
+
+def step_key(st):
+    return (st["mode"], st["params"], st["src"])
 
 
 def func_want(stmts_dump):
@@ -589,15 +810,33 @@ class C15(Prop):
     prop_module = "Props.C15"
     prop_file = "Props/C15.v"
     coq_targets = ["Props/C15.vo", "Run/Judge_C15.vo"]
-    sizes = {"quick": 1800, "thorough": 36000}
+    sizes = {"quick": 2300, "thorough": 40000}
     shard = 250
     design_ref = "DESIGN.md section 6 C15"
-    rule = ("stream 1 (40%): generated expression trees of the supported subset (depth <= 8 quick / 14 thorough) printed "
+    rule = ("stream 1 (31%): generated expression trees of the supported subset (depth <= 8 quick / 14 thorough) printed "
             "with minimal parentheses plus random redundant parentheses, white space, line breaks and comments, through "
             "ParseFile and (as `return e` / statement lists) ParseFunction; oracle = the generator's own tree; "
-            "stream 2 (30%): 1-3 byte-level mutations of those texts over the subset alphabet, Go vs model on tree / error; "
-            "stream 3 (30%): arbitrary bytes, invalid UTF-8, unterminated literals, every escape form, nesting up to 600 deep "
-            "(judged), plus inputs up to 10^4 bytes (quick) observed only: must return, no panic, same answer twice. "
+            "stream 2 (23%): 1-3 byte-level mutations of those texts over the subset alphabet, Go vs model on tree / error; "
+            "stream 3 (22%): arbitrary bytes, invalid UTF-8, unterminated literals, every escape form, nesting up to 600 deep "
+            "(judged), plus inputs up to 10^4 bytes (quick) observed only: must return, no panic, same answer twice; "
+            "stream 4 (13%): the comment and literal forms the parser treats specially, each well-formed, truncated and "
+            "malformed - source map comments (//# and //@ sourceMappingURL=, /*# ... */, as last line / followed by a line "
+            "break / in the middle; data: URLs with base64 payload of valid, damaged and non-source-map JSON, cut base64, no "
+            "comma, no payload, plain file names, empty), regular expression literals (valid; valid in JavaScript but not in "
+            "re2: look-ahead, back-references; invalid: open groups / classes, bad repeats, named groups, look-behind, "
+            "\\p, invalid UTF-8; random atom sequences; every kind of flags; unterminated literals), back-tick strings "
+            "with ${...}, line breaks and escapes, numeric literal edge forms, unicode escapes and non-ASCII letters in "
+            "identifiers - alone, inside about 100 surroundings (call argument, var, condition, every statement form, after "
+            "tokens where `/` means division), inside a generated expression, with 1-2 byte edits; as program and as "
+            "function body (also in the parameter list); each in a process of its own (twice in a row) and once more in a "
+            "freshly started process; "
+            "stream 5 (11%): histories - the case's input A (a special form in some surroundings 60%, a generated "
+            "expression with its tree 25%, hostile bytes 15%) is parsed 2-4 times in one process of its own, before / "
+            "between / after 1-6 other inputs that share sub-strings with A (the same literal alone and in other "
+            "surroundings and through the other entry point, another literal in A's surroundings, A with a byte edit, "
+            "prefixes, suffixes, sub-strings; 6% of the histories put 20-150 different inputs between two parses of A), and "
+            "once in a freshly started process; every input that occurs more than once in a history must get the same "
+            "answer class and the same whole-tree fingerprint each time, and no parse may panic or hang. "
             "non-trivial = at least 3 bytes; distinct by SHA-1 of the case")
     trusted = [
         "M (coq/Js/Lex.v, coq/Js/Parse.v) is a hand-written reading of otto/parser lexer.go, expression.go, statement.go, "
@@ -605,8 +844,15 @@ class C15(Prop):
         "stops at the first recorded error (answer class only: tree / error; no messages, no positions)",
         "PARTIAL: crash freedom and termination of the Go code itself (run-time panics such as nil dereference or index "
         "out of range, stack exhaustion, syntax outside the model) are OBSERVED - every parse runs under recover() and a "
-        "watchdog, twice; inputs above 10^4 bytes in a child process under ulimit -v - not proved; the theorems "
+        "watchdog; inputs above 10^4 bytes in a child process under ulimit -v - not proved; the theorems "
         "C15_fuel / C15_no_model_panic are statements about M",
+        "PARTIAL: 'the same answer every time' is OBSERVED, not proved: M is a function of the text by construction, the "
+        "Go parser could keep state between calls (package variables, caches, pools).  Streams 4 and 5 parse equal inputs "
+        "repeatedly in one process around related inputs and in a freshly started process and compare the answer class and "
+        "a fingerprint of the whole tree (harness/c15.go c15Fingerprint: SHA-1 over every field of every node read by "
+        "reflection, positions included; the *file.File of a program and comment maps are not walked); the judge "
+        "(Run/Judge_C15.v hist_ok) compares them inside Coq.  State that shows only after more than 150 (quick) / 600 "
+        "(thorough) other inputs, only under concurrent parses, or only in fields outside the returned tree is not seen",
         "the harness's AST dump (harness/c15.go) and the generator's printer/dump (gen/c15.py, an independent statement "
         "of ECMA-262 precedence used as the oracle of stream 1) are trusted to be written correctly; a mistake shows up "
         "as an alarm, not as silence",
@@ -615,9 +861,15 @@ class C15(Prop):
         "reproduced quirk, not part of C15",
     ]
     assumptions = [
-        "outside the model (POutside, counted as unmodelled): regular expression literals, statements other than "
-        "expression / var / return / empty, labels, getters/setters, &^=, identifier escapes, non-ASCII characters "
-        "outside strings and comments, U+2028/9 in comments, inline source maps",
+        "outside the model (POutside, counted as unmodelled, judged by the observation oracle alone: returns a tree or an "
+        "error value, no panic, no hang, the same answer class and tree on every repetition): regular expression literals, "
+        "statements other than expression / var / return / empty, labels, getters/setters, &^=, identifier escapes, "
+        "non-ASCII characters outside strings and comments, U+2028/9 in comments; and ParseFile texts that contain "
+        "`sourceMappingURL=data:application/json` (the inline source map is decoded by encoding/base64 and "
+        "github.com/go-sourcemap/sourcemap: a payload that does not decode to a source map turns the answer into an error "
+        "value whatever the text is)",
+        "mode 0 only (what pugjs passes to ParseFile; ParseFunction has no mode): IgnoreRegExpErrors and StoreComments are "
+        "not exercised",
         "scope.allowIn is constantly true in the model (it is false only inside a for-statement head, outside the model)",
         "the nesting limit of 100000 levels (repair of F-C15-c) is not modelled; inputs shorter than 100000 bytes cannot "
         "reach it (the judged inputs are at most 2500 bytes)",
@@ -634,6 +886,8 @@ class C15(Prop):
         "(beyond the minimal and the fully parenthesised form) are covered by the correspondence streams only",
         "the theorems are about the model M; that the Go code computes what M computes is checked per run on generated "
         "cases, not proved",
+        "no theorem covers regular expression literals, source map comments, identifier escapes or the independence of an "
+        "answer from earlier parses: these are checked by observation only (streams 4 and 5)",
     ]
 
     # -------------------------------------------------------------- generation
@@ -703,6 +957,9 @@ class C15(Prop):
             # (x.in, x.new: insertSemicolon is left as it was); not part of the claimed subset
             if not a.rstrip(b" \n").endswith(b";") and any(a.rstrip(b" \n").endswith(k.encode()) for k in KEYWORDS):
                 ok = False
+        last = parts[-1].rstrip(b" \n")
+        if not last.endswith(b";") and any(last.endswith(k.encode()) for k in KEYWORDS):
+            ok = False       # the same at the end of the text: `x.new` + line break + end of input
         if not ok:
             src = b"".join(p if p.rstrip(b" \n").endswith(b";") else p.rstrip(b"\n") + b";\n" for p in parts)
         if mode == "file":
@@ -736,44 +993,248 @@ class C15(Prop):
                           b"%s}) + (function(){ %s", b"%s}), ({a:function(){ %s} ", b"return %s});({%s"])
         return mk("func", pat % (e1, e2), 2)
 
+    # ---- stream 4: the special comment and literal forms, alone / embedded / damaged, as program and as function body
+    FUNC_PARAMS = [b"", b"", b"", b"s", b"a, b", b"a,b,c", b" x ", b"a,", b",", b"a b", b")", b"a){", b"a = 1", b"...r", b"if",
+                   b"/*c*/a", b"a//\n", b"\\u0061"]
+
+    def special_text(self, rng, tier, kind=None):
+        """(kind, literal, text): a special form alone, inside a snippet that is otherwise fine, or damaged"""
+        kind = kind or rng.choice(["sourcemap"] * 3 + SPECIAL_KINDS)
+        if kind == "sourcemap":
+            lit = sm_comment(rng)
+            m = rng.random()
+            if m < 0.25:
+                code = b""
+            elif m < 0.75:
+                code = print_expr(ExprGen(rng, 3).expr(rng.randint(0, 3)), rng, 0.05, 0.3) + rng.choice([b"", b";", b" "])
+                if rng.random() < 0.3:
+                    code = b"var v = " + code
+            elif m < 0.9:
+                code = fill(rng.choice(CTX_EXPR), special_literal(rng)[1], rng)
+            else:
+                code = soup(rng, rng.choice([2, 5, 12]))
+            sep = rng.choice([b"\n"] * 20 + [b"\r\n", b"\n\n", b";\n", b" ", b"\r", b"\n /**/", b"\n\t"])
+            tail = rng.choice([b""] * 24 + [b"\n", b"\r\n", b"\r", b" ", b"\n" + lit, b"\nx", b"\n//", b"\n\n"])
+            src = (code + sep if code else rng.choice([b"", b"", b"\n", b" "])) + lit + tail
+            if rng.random() < 0.06:
+                src = byte_edit(src, rng)
+            return kind, lit, src
+        _, lit = special_literal(rng, kind)
+        m = rng.random()
+        if m < 0.25:
+            src = lit
+        elif m < 0.7:
+            other = special_literal(rng)[1] if rng.random() < 0.3 else None
+            src = fill(rng.choice(CTX_EXPR), lit, rng, other)
+        elif m < 0.85:
+            # inside a generated expression of the supported subset
+            e = print_expr(ExprGen(rng, 3).expr(rng.randint(1, 3)), rng, 0.05, 0.3)
+            src = rng.choice([b"(%s) + %s", b"f(%s, %s)", b"[%s, %s]", b"var a = %s;\nvar b = %s;", b"%s ? %s : 0",
+                              b"%s;\n%s", b"x = {p: %s, q: %s}"]) % ((e, lit) if rng.random() < 0.7 else (lit, e))
+        else:
+            src = byte_edit(fill(rng.choice(CTX_EXPR), lit, rng), rng)
+        return kind, lit, src
+
+    def gen_special(self, rng, tier, kind=None):
+        kind, lit, src = self.special_text(rng, tier, kind)
+        mode = "file" if rng.random() < (0.8 if kind == "sourcemap" else 0.6) else "func"
+        params = b""
+        if mode == "func":
+            if rng.random() < 0.4 and not src.startswith(b"return"):
+                src = b"return " + src
+            m = rng.random()
+            params = rng.choice(self.FUNC_PARAMS) if m < 0.5 else lit if m < 0.58 and kind != "sourcemap" else b""
+        c = mk(mode, src, 4, params=params, kind=kind)
+        c["fresh"] = True      # processes of its own: twice in a row in one, once more in a freshly started one
+        return c
+
+    # ---- stream 5: histories.  A is parsed several times in one process, between other inputs that share
+    # sub-strings with it, and once in a freshly started process
+    def related(self, rng, tier, a, lit, kind):
+        """inputs that share sub-strings with A"""
+        asrc, out = unhx(a["src"]), []
+        other_mode = "func" if a["mode"] == "file" else "file"
+        for _ in range(rng.choice([1, 2, 2, 3, 3, 4, 6])):
+            m = rng.random()
+            if lit is not None and m < 0.2:
+                out.append(mk(rng.choice(["file", "func"]), lit, 5))                              # the literal alone
+            elif lit is not None and m < 0.5:
+                src = fill(rng.choice(CTX_EXPR), lit, rng)                                        # other surroundings
+                out.append(mk(rng.choice(["file", "func"]), src, 5))
+            elif lit is not None and kind in SPECIAL_KINDS[1:] and m < 0.62:
+                lit2 = special_literal(rng, kind if rng.random() < 0.7 else None)[1]              # same surroundings, other literal
+                out.append(mk(a["mode"], asrc.replace(lit, lit2), 5, params=unhx(a["params"])))
+            elif m < 0.7:
+                out.append(mk(other_mode, asrc, 5))                                               # the other entry point
+            elif m < 0.8:
+                out.append(mk(a["mode"], byte_edit(asrc, rng), 5, params=unhx(a["params"])))      # a small edit
+            elif m < 0.88:
+                cut = rng.randrange(len(asrc) + 1)                                                # a prefix / a suffix
+                out.append(mk(a["mode"], asrc[:cut] if rng.random() < 0.6 else asrc[cut:], 5, params=unhx(a["params"])))
+            elif m < 0.94:
+                out.append(mk(a["mode"], asrc + rng.choice([b" ", b"\n", b";", b"\n//", b" + 1", b")", b"\\"]), 5,
+                              params=unhx(a["params"])))
+            else:
+                i = rng.randrange(len(asrc) + 1)                                                  # a sub-string
+                out.append(mk(rng.choice(["file", "func"]), asrc[i:i + rng.choice([1, 2, 4, 8, 16])], 5))
+        return out
+
+    def gen_history(self, rng, tier):
+        m = rng.random()
+        lit, kind = None, None
+        if m < 0.6:
+            kind = rng.choice(SPECIAL_KINDS + ["regexp_re2", "regexp_invalid", "regexp_random", "regexp_valid"])
+            kind, lit, src = self.special_text(rng, tier, kind)
+            mode = "file" if rng.random() < 0.6 else "func"
+            if mode == "func" and rng.random() < 0.4:
+                src = b"return " + src
+            a = mk(mode, src, 5, kind=kind)
+        elif m < 0.85:
+            # a generated expression (oracle = the generator's own tree); the shared sub-string is one of its leaves' texts
+            d = rng.choice([1, 2, 3, 4])
+            e = ExprGen(rng, d).expr(d)
+            a = self.case_from_tree(e, rng)
+            a["stream"], a["kind"] = 5, "expression"
+            a.pop("tree")
+            leaves = [get_sub(e, p) for p in subpaths(e)]
+            leaves = [x for x in leaves if x[0] in ("id", "str", "num")]
+            if leaves:
+                lit = tb(toks_raw(rng.choice(leaves), 0, None)[0])
+        else:
+            kind = "hostile"
+            a = self.gen_hostile(rng, tier)
+            if len(a["src"]) > 400:
+                a["src"] = a["src"][:400]
+            a["stream"], a["kind"] = 5, kind
+        a.setdefault("kind", kind)
+        sa = step_of(a)
+        rel = [step_of(x) for x in self.related(rng, tier, a, lit, kind)]
+        rel = [x for x in rel if step_key(x) != step_key(sa)] or [step_of(mk("file", b"a", 5))]
+        p = rng.random()
+        if p < 0.3:
+            hist = [sa] + rel + [sa]
+        elif p < 0.5:
+            hist = rel + [sa, sa]                     # the others first: what they leave behind meets A's first parse
+        elif p < 0.7:
+            hist = []
+            for x in rel:
+                hist += [sa, x]
+            hist.append(sa)
+        elif p < 0.82:
+            hist = [sa, sa] + rel + rel + [sa]
+        elif p < 0.94:
+            hist = rel[:1] + [sa] + rel + [sa] + rel[:1]
+        else:
+            # more distinct inputs than any small table holds, between two parses of A
+            many = []
+            for i in range(rng.choice([20, 70, 150] if tier == "quick" else [70, 150, 600])):
+                k2, l2 = special_literal(rng, kind if kind in SPECIAL_KINDS[1:] and rng.random() < 0.7 else None)
+                if l2[:1] == b"/" and len(l2) > 1:
+                    l2 = b"/%d" % i + l2[1:]            # all different
+                many.append(step_of(mk(a["mode"], fill(rng.choice(CTX_EXPR[:12]), l2, rng), 5)))
+            many = [x for x in many if step_key(x) != step_key(sa)]
+            hist = [sa] + many + rel + [sa]
+        a["hist"] = hist
+        a["fresh"] = True
+        return a
+
     def generate(self, rng, n, tier):
         cases = []
         for i in range(n):
             m = rng.random()
-            if m < 0.32:
+            if m < 0.25:
                 cases.append(self.case_from_tree(self.gen_expr_case(rng, tier), rng))
-            elif m < 0.4:
+            elif m < 0.31:
                 cases.append(self.gen_stmts_case(rng, tier))
-            elif m < 0.66:
+            elif m < 0.51:
                 base = self.case_from_tree(self.gen_expr_case(rng, tier), rng)
                 src = mutate(unhx(base["src"]), rng)
                 cases.append(mk(base["mode"], src, 2))
-            elif m < 0.7:
+            elif m < 0.54:
                 cases.append(self.gen_wrapper_breaker(rng, tier))
-            else:
+            elif m < 0.76:
                 cases.append(self.gen_hostile(rng, tier))
+            elif m < 0.89:
+                cases.append(self.gen_special(rng, tier))
+            else:
+                cases.append(self.gen_history(rng, tier))
         return cases
 
     # -------------------------------------------------------------- judging
+    def history_of(self, case, obs):
+        """[(input number, class, fingerprint)]: every parse of the case's process in order, then the fresh process.
+        Numbers from the CASE (0 = the case's own input, the others by first appearance), answers from Go."""
+        a = step_key(case)
+        steps = case.get("hist") or [step_of(case), step_of(case)]
+        ids, out = {a: 0}, []
+        for st, o in zip(steps, obs.get("steps") or []):
+            k = step_key(st)
+            if k not in ids:
+                ids[k] = len(ids)
+            out.append((ids[k], CLASSES.get(o["class"], 2), o.get("fp", "")))
+        if obs.get("fresh"):
+            out.append((0, CLASSES.get(obs["fresh"]["class"], 2), obs["fresh"].get("fp", "")))
+        return out
+
     def emit(self, case, obs):
         want = cq_opt(cq_bytes(unhx(case["want"]))) if case.get("want") else b"None"
+        hist = cq_list([cq_pair(cq_nat(i), cq_pair(cq_nat(cl), cq_bytes(fp))) for i, cl, fp in self.history_of(case, obs)])
         return (b"{| mode := " + (b"0" if case["mode"] == "file" else b"1") +
                 b"; params := " + cq_bytes(unhx(case.get("params", ""))) +
                 b"; src := " + cq_bytes(unhx(case["src"])) +
                 b"; want := " + want +
                 b"; go_class := " + cq_nat(CLASSES.get(obs["class"], 2)) +
                 b"; go_dump := " + cq_bytes(unhx(obs["dump"])) +
-                b"; go_same := " + cq_bool(obs["same"]) + b" |}")
+                b"; go_same := " + cq_bool(obs["same"]) +
+                b"; go_fp := " + cq_bytes(obs.get("fp", "")) +
+                b"; go_hist := " + hist + b" |}")
 
     def nontrivial(self, case, obs):
         return len(case["src"]) >= 6
 
     def sample(self, case, obs):
-        return {"mode": case["mode"], "stream": case.get("stream"), "src": unhx(case["src"]).decode("latin-1"),
-                "go_class": obs["class"], "go_tree": unhx(obs["dump"]).decode("latin-1")[:400],
-                "want": unhx(case["want"]).decode("latin-1")[:400] if case.get("want") else None}
+        d = {"mode": case["mode"], "stream": case.get("stream"), "src": unhx(case["src"]).decode("latin-1"),
+             "go_class": obs["class"], "go_tree": unhx(obs["dump"]).decode("latin-1")[:400],
+             "want": unhx(case["want"]).decode("latin-1")[:400] if case.get("want") else None}
+        if case.get("hist"):
+            d["history"] = [(i, cl) for i, cl, fp in self.history_of(case, obs)][:40]
+        return d
 
     def shrink(self, case):
+        if case.get("hist"):
+            # a history: fewer steps first (only the parses of A; one half; one step less), then A alone twice
+            a, hist = step_key(case), case["hist"]
+            cands = [[st for st in hist if step_key(st) == a]]
+            n = len(hist)
+            step = max(1, n // 2)
+            while step >= 1:
+                for i in range(0, n, step):
+                    cands.append(hist[:i] + hist[i + step:])
+                step //= 2
+            seen = set()
+            for h in cands:
+                k = json.dumps(h)
+                if k in seen or len(h) >= n or not any(step_key(st) == a for st in h):
+                    continue
+                seen.add(k)
+                c = dict(case)
+                c["hist"] = h
+                yield c
+            # then a shorter A, replaced wherever it is parsed
+            src = unhx(case["src"])
+            n2 = len(src)
+            step = max(1, n2 // 2)
+            while step >= 1:
+                for i in range(0, n2, step):
+                    cand = src[:i] + src[i + step:]
+                    c = dict(case)
+                    c["src"] = hx(cand)
+                    c.pop("want", None)
+                    c["hist"] = [dict(st, src=c["src"]) if step_key(st) == a else st for st in hist]
+                    if not any(step_key(st) == step_key(c) for st in hist):
+                        yield c
+                step //= 2
+            return
         if case.get("tree") is not None:
             e = tup(case["tree"])
             # smallest subtrees first: the first candidate that still fails is the witness
@@ -826,19 +1287,39 @@ class C15(Prop):
         return "string_of_list_ascii (model_text c)"
 
     def distribution(self, cases, obss):
-        d = {"stream1_generated": 0, "stream2_mutated": 0, "stream3_hostile": 0, "mode_file": 0, "mode_func": 0,
-             "go_ok": 0, "go_err": 0, "go_panic": 0, "go_timeout": 0, "go_unequal_second_run": 0,
-             "max_src_bytes": 0, "src_bytes_hist": {}, "slowest_ms": 0}
+        names = {1: "generated", 2: "mutated", 3: "hostile", 4: "special_forms", 5: "histories"}
+        d = {"stream1_generated": 0, "stream2_mutated": 0, "stream3_hostile": 0, "stream4_special_forms": 0,
+             "stream5_histories": 0, "mode_file": 0, "mode_func": 0,
+             "go_ok": 0, "go_err": 0, "go_panic": 0, "go_timeout": 0, "go_unequal_answers_to_one_input": 0,
+             "max_src_bytes": 0, "src_bytes_hist": {}, "slowest_ms": 0,
+             "special_form_kinds": {}, "special_form_answers": {}, "parses_in_histories": 0, "longest_history": 0,
+             "history_inputs_parsed_more_than_once": 0, "fresh_process_comparisons": 0,
+             "sourcemap_comment_last_line_file_mode": 0}
         for c, o in zip(cases, obss):
-            d["stream%d_%s" % (c.get("stream", 3), {1: "generated", 2: "mutated", 3: "hostile"}[c.get("stream", 3)])] += 1
+            st = c.get("stream", 3)
+            d["stream%d_%s" % (st, names[st])] += 1
             d["mode_" + c["mode"]] += 1
             d["go_" + o["class"]] = d.get("go_" + o["class"], 0) + 1
-            d["go_unequal_second_run"] += not o["same"]
+            d["go_unequal_answers_to_one_input"] += not o["same"]
             n = len(c["src"]) // 2
             d["max_src_bytes"] = max(d["max_src_bytes"], n)
             b = "<8" if n < 8 else "<32" if n < 32 else "<128" if n < 128 else "<512" if n < 512 else ">=512"
             d["src_bytes_hist"][b] = d["src_bytes_hist"].get(b, 0) + 1
             d["slowest_ms"] = max(d["slowest_ms"], o.get("ms", 0))
+            if c.get("kind"):
+                d["special_form_kinds"][c["kind"]] = d["special_form_kinds"].get(c["kind"], 0) + 1
+                k = "%s:%s" % (c["kind"], o["class"])
+                d["special_form_answers"][k] = d["special_form_answers"].get(k, 0) + 1
+            if c.get("hist"):
+                d["parses_in_histories"] += len(c["hist"])
+                d["longest_history"] = max(d["longest_history"], len(c["hist"]))
+                keys = [step_key(x) for x in c["hist"]]
+                d["history_inputs_parsed_more_than_once"] += sum(1 for k in set(keys) if keys.count(k) > 1)
+            if o.get("fresh"):
+                d["fresh_process_comparisons"] += 1
+            src = unhx(c["src"])
+            if c["mode"] == "file" and src.split(b"\n")[-1].startswith(b"//# sourceMappingURL=data:application/json"):
+                d["sourcemap_comment_last_line_file_mode"] += 1
         return d
 
     # -------------------------------------------------------------- observation-only stream: large inputs
